@@ -63,6 +63,7 @@ def run(tier: str, seed: int) -> int:
             'edges': lambda: run_tlc('Tokenizer', edge_cfg, workers=1, timeout=2400),
             'random': lambda: core.run_driver('c03_driver.py', ['random', work.path('random.ndjson')], env=env),
             'kvsoup': lambda: core.run_driver('c03_driver.py', ['kvsoup', work.path('kvsoup.ndjson')], env=env),
+            'calls': lambda: core.run_driver('c03_driver.py', ['calls', work.path('calls.ndjson')], env=env),
         }
         for c in fam_cfgs:
             jobs[c] = (lambda c=c: run_tlc('Tokenizer', c, timeout=3000))
@@ -82,7 +83,7 @@ def run(tier: str, seed: int) -> int:
             raise core.MachineryError(f'vacuous lexer model: actions never taken: {never}')
         cov['actions_covered'] = {a: res['cov'].coverage[a][1] for a in sorted(MC_ACTIONS)}
         # ---- 2. every transition of the two models, replayed on the real tokenizer
-        recs = [work.path('random.ndjson'), work.path('kvsoup.ndjson')]
+        recs = [work.path('random.ndjson'), work.path('kvsoup.ndjson'), work.path('calls.ndjson')]
         edges = [p for p in res['edges'].prints if isinstance(p, dict) and p.get('tag') == 'EDGE']
         if len(edges) != res['edges'].generated - len({json.dumps(e['o'], sort_keys=True) for e in edges}):
             raise core.MachineryError(f'{edge_cfg}: {len(edges)} edges printed for {res["edges"].generated} generated states')
